@@ -52,9 +52,9 @@ CLAIMED = {
  "C13": E("proof", "§7 C13", "Theorems for every history: after any sequence of searches of any sizes, bumps and markings (across the uint16 wrap and re-slicing) a new search sees no visited entry; marking is exact; a cache clear returns the accounting to that of a new cache. Ties: visited model vs BacktrackerState over 70 000 calls; reuse across the generation wrap vs fresh state; lazy DFA reused cache vs fresh cache; aged Regex vs fresh Regex call by call with GC in between.",
    "The lazy DFA's transition memo is not modelled; its history dependence for look-around patterns is an open finding.",
    "Lean 4 invariants over operation sequences + history correspondence"),
- "C14": E("proof", "§7 C14", "Theorems: the bounded-backtracker model is sound and complete for the NFA path relation; the Pike VM model equals it (isMatch iff, search = priority DFS, longest); the lazy-DFA model (closure, move with break-at-match, start states, cache insert / clear-and-rebuild / give-up, acceleration, unrolled loop — transliterated from dfa/lazy) returns, for look-free automata, the reference's END for EVERY cache capacity (also one too small for any state), every clear limit and every history of earlier calls on the same cache, or hands over to the NFA (memoisation is invisible). Ties, every run: PikeVM (5 entry points), the real backtracker (reused state) and the lazy DFA (8 cache/clear configurations) are driven directly on NFAs dumped from the code against the reference, over exhaustive short haystacks of byte-class representatives plus pattern-derived haystacks, every start offset; the lazy-DFA model is replayed call by call against the real DFA on one reused cache per configuration.",
-   'For automata with look-around the lazy-DFA theorems do not apply and the code deviates (machine-checked witnesses in C14_dfa_deviations_partial; open findings C14-dfa-*); reverse DFAs and prefilter skipping are not modelled.',
-   'Lean 4 theorems (memoised DFS = NFA path relation; Pike = DFS; lazy DFA with cache = reference) + engine-level correspondence on dumped NFAs'),
+ "C14": E("proof", "§7 C14", 'Theorems: the bounded-backtracker model is sound and complete for the NFA path relation; the Pike VM model equals it (isMatch iff, search = priority DFS, longest); the lazy-DFA model (closure with look sets, look-behind bits in the state key, determinize with re-closure of the ordered thread list, break-at-match, start states, cache insert / clear-and-reinsert / give-up, exact acceleration, unrolled loop, anchored loop — transliterated from dfa/lazy) returns the reference END for EVERY automaton the compiler emits, WITH look-around (^ $ \\A \\z \\b \\B and their multiline forms), every cache capacity (also one too small for any state), every clear limit and every history of earlier SearchAt / IsMatch / IsMatchAt / SearchAtAnchored calls on the same cache, or hands over to the NFA (memoisation is invisible; uncached DFA = priority DFS). Hypotheses are decidable checks evaluated per dumped automaton (no rune states, disjoint sparse ranges, prefix shape, byte classes compatible with the ranges and the look-around of the automaton). Ties, every run: PikeVM (5 entry points), the real backtracker (reused state) and the lazy DFA (8 cache/clear configurations) are driven directly on NFAs dumped from the code against the reference, over exhaustive short haystacks of byte-class representatives plus pattern-derived haystacks, every start offset; the lazy-DFA model is replayed call by call against the real DFA on one reused cache per configuration.',
+   'Reverse DFAs (SearchReverse*), prefilter skipping inside the DFA and the second result of SearchAtAnchoredStopAt are not modelled; the former deviations of the DFA are kept as machine-checked _fixed witnesses (C14_dfa_deviations_fixed).',
+   'Lean 4 theorems (memoised DFS = NFA path relation; Pike = DFS; lazy DFA with cache and look-around = reference) + engine-level correspondence on dumped NFAs'),
  "C15": E("proof", "§7 C15", "Theorems: decode∘encode = id on scalar values, a decode step consumes the encoding of its rune or one byte; the class compiler (compileCharClass → compileUnicodeClass / compileUnicodeClassLarge → compileUTF8Range, the 1/2/3/4-byte range splitters and continuation-bound helpers, transliterated as the byte-range sequences it emits) accepts, for EVERY rune range with no precondition, exactly the encodings of the scalar values in the range, and for every class exactly the encodings of its members plus two named deviations (lone bytes >= 0x80 for classes containing every non-ASCII rune: deliberate; raw surrogate bytes on the small-class path: a defect, machine-checked and confirmed); the executable class checker is proved to be an exact decision procedure (classCheck = ok iff every scalar value and every enumerated ill-formed string is accepted exactly when regexp's decoding rule says so). Ties, every run: the byte-range sequences along all paths of the automaton the real compiler emitted must equal the model's output literally (inventory + ~500 generated multi-range classes around every encoding boundary); the verified checker sweeps all code points for the inventory (Perl/POSIX/Unicode classes, negations, folded literals/classes, dot, three compilation modes); every non-letter rune of the fold table (all runes in thorough) as (?i:r) against its SimpleFold orbit.",
    'Dot (compileUTF8Any*, utf8_suffix.go) and fold-case literals are covered by the checker per instance, not by the compiler theorem. Behaviour inside concatenations on ill-formed input is an open finding.',
    'Lean 4 theorems (UTF-8 range compiler exact for all ranges; verified class checker) + literal translation validation of compiled automata'),
